@@ -12,7 +12,8 @@ model of the validation prefix `validate_<op>` evaluated by the Lean driver.
 A second family (`unsupported`) hands every public binary operation / method that takes a tensor
 operand an operand of a TYPE it does not take (str, None, list, dict, complex / float ndarray, the
 other pyttb classes) and demands an exception; its specification is the table `SUPPORTED` below
-(no Lean model).
+(no Lean model).  A third family (`sparse_read`) reads a sparse tensor with keys whose index list has an
+out-of-range entry; its reference is the same key applied to the dense array by NumPy.
 """
 from __future__ import annotations
 
@@ -46,6 +47,13 @@ RULE = ("one call per case; operands given by shape, values small integers deriv
         "non-float factor matrices / weights, initial guesses of a class the algorithm does not take (a ttensor "
         "with fitting factors), contract of non-square matrices, larger masks whose nonzeros lie inside the data, "
         "S[region] = sptensor with an index list of another length, subdims with a region of another length. "
+        "Second list: sizes wrong mode by mode with EQUAL PRODUCTS (mttkrp factor rows, ttt contracted extents), "
+        "multiplicands of ttv / arguments of khatrirao / data of from_vector / shape arrays of another ORDER (incl. "
+        "matrices that would broadcast and singleton axes in every position), constructors given one of two coupled "
+        "arguments, one reconstruct sample for several modes, tenfun handle arity against operand count, S[subs] = v "
+        "with fewer subscript columns than modes (receiver compared). "
+        "Family `sparse_read`: S[key] with an out-of-range entry (first / middle / last) in an index list against the "
+        "same key on the dense array with NumPy; demanded where the in-range part of the region holds a nonzero. "
         "Family `unsupported`: every public binary operation / method taking a tensor operand is handed operands "
         "of a TYPE it does not take (str, None, list, dict, complex / float ndarray, each other pyttb class; "
         "receivers with and without nonzeros) and must raise - the specification is the table SUPPORTED written "
@@ -53,7 +61,12 @@ RULE = ("one call per case; operands given by shape, values small integers deriv
 ASSUMPTIONS = [
     "any Python exception is a rejection; a returned value (or None from an in-place operation) is an answer",
     "family malformed: operands are described by shape: matrices are 2-d arrays, vectors 1-d arrays, modes "
-    "integers; 3-d 'matrices' and float modes are outside the property",
+    "integers; arrays of another order are generated for ttv / ttsv multiplicands, khatrirao arguments, from_vector "
+    "data and shape arguments only; float modes are outside the property",
+    "a row / column / stacked vector of the right length counts as a vector for ttv (ktensor.ttv drops singleton "
+    "axes on purpose); the other holders' refusal of it is over-rejection",
+    "family sparse_read: an out-of-range index-list entry must be refused where the region named by the in-range "
+    "entries holds a stored nonzero; on an all-zero region pyttb answers zeros (reads by key: property C04)",
     "family unsupported: an operand kind counts as taken by an operation when the signature / documentation names "
     "it or the operation converts it on purpose (tenfun: arrays of any dtype and every class with to_tensor/full, "
     "hence also a tenmat; scale: anything with to_tenmat; dense __setitem__: NumPy's assignment conventions); "
@@ -1609,6 +1622,14 @@ class Misc(Op):
                 out.append({"k": "viz", "shape": s, "which": which, "lens": [N + 1], "bad": "option list length"})
                 out.append({"k": "viz", "shape": s, "which": which, "lens": [N - 1], "bad": "option list length"})
             out.append({"k": "spmatrix", "shape": s, "bad": None if N == 2 else "not a matrix"})
+            # the number of arguments of the function against the number of other operands: a function of two
+            # arguments with none / two / three operands (the surplus would be dropped), of no or three arguments
+            for rep in ("dense", "sparse", "ndarray"):
+                for nargs in (0, 1, 2, 3):
+                    for no in (0, 1, 2, 3):
+                        ok = nargs == 1 or (nargs == 2 and no == 1)
+                        out.append({"k": "tenfun_arity", "shape": s, "rep": rep, "nargs": nargs, "nothers": no,
+                                    "bad": None if ok else "function arity against operand count"})
         return out
 
     def run(self, c, r):
@@ -1621,6 +1642,12 @@ class Misc(Op):
                 return mk_holder(r, c["rep"], t)
             others = [mk(t) for t in c["others"]]
             return (lambda: X.tenfun(lambda M: M.sum(axis=0), *others)), X
+        if c["k"] == "tenfun_arity":
+            X = mk_dense(r, c["shape"])
+            others = [np.ones(tuple(c["shape"])) if c["rep"] == "ndarray" else mk_holder(r, c["rep"], c["shape"])
+                      for _ in range(c["nothers"])]
+            f = [lambda: 0.0, lambda M: M.sum(axis=0), lambda x, y: x + y, lambda x, y, z: x + y + z][c["nargs"]]
+            return (lambda: X.tenfun(f, *others)), X
         if c["k"] == "viz":
             import matplotlib
             matplotlib.use("Agg")
@@ -2105,6 +2132,48 @@ class SpAssign(Op):
         return {"key": key, "rhs": c["rhs"]}
 
 
+class SpSetSubs(Op):
+    """`S[subs] = value` with a 2-d array of subscripts that has FEWER columns than the tensor has modes: rejected
+    before anything is matched against the stored subscripts or written (more columns: growth, property C04)"""
+    name = "sp_setsubs"
+    covers = ()
+
+    def gen(self, rng, tier):
+        out = []
+        shapes = SHAPES + [[2, 3], [3, 2, 2, 2]] if tier == "thorough" else rng.sample(SHAPES, 5) + [[2, 3], [2, 3, 4]]
+        for s in shapes:
+            N = len(s)
+            for nnz in (None, 0, gen.numel(s)):
+                for w in range(0, N + 2):
+                    for rows in (1, 2):
+                        for val in ("nonzero", "zero", "array"):
+                            for stored in (True, False):
+                                out.append({"shape": s, "nnz": nnz, "width": w, "rows": rows, "val": val, "stored": stored,
+                                            "bad": "fewer subscript columns than modes" if w < N else None})
+        return out
+
+    def run(self, c, r):
+        s, w = c["shape"], c["width"]
+        S = mk_sparse(r, s, c["nnz"])
+        ext = list(s) + [2] * max(0, w - len(s))
+        rows = []
+        for i in range(c["rows"]):
+            if c["stored"] and S.subs.size and i == 0:
+                # the leading columns of a stored subscript (what a matcher that does not look at the width would hit)
+                row = [int(x) for x in S.subs[r.randrange(S.subs.shape[0])]] + [0] * max(0, w - len(s))
+            else:
+                row = [r.randrange(m) for m in ext]
+            rows.append(row[:w])
+        if len(rows) == 2 and rows[0] == rows[1] and w:
+            rows[1][0] = (rows[1][0] + 1) % ext[0]
+        key = np.array(rows, dtype=int).reshape(len(rows), w)
+        val = {"nonzero": 5.0, "zero": 0.0, "array": np.arange(1.0, len(rows) + 1).reshape(-1, 1)}[c["val"]]
+        return (lambda: S.__setitem__(key, val)), S
+
+    def req(self, c):
+        return {"shape": c["shape"], "width": c["width"]}
+
+
 class Subdims(Op):
     """`S.subdims(region)`: one region entry per mode"""
     name = "subdims"
@@ -2133,7 +2202,7 @@ class Subdims(Op):
 
 
 OPS = [Dimscheck(), Ttv(), Ttm(), Mttkrp(), Innerprod(), Elementwise(), TenmatMul(), Ttt(), Contract(), Collapse(), Scale(),
-       Permute(), Reshape(), ToMat(), Constructors(), KtensorModes(), Nvecs(), Mttkrps(), Ttsv(), Symmetry(), Kmatch(), Update(), Reconstruct(), FromFunction(), MatIndex(), Misc(), Mask(), Extract(), Khatrirao(), Algorithms(), ImportData(), SpAssign(), Subdims()]
+       Permute(), Reshape(), ToMat(), Constructors(), KtensorModes(), Nvecs(), Mttkrps(), Ttsv(), Symmetry(), Kmatch(), Update(), Reconstruct(), FromFunction(), MatIndex(), Misc(), Mask(), Extract(), Khatrirao(), Algorithms(), ImportData(), SpAssign(), SpSetSubs(), Subdims()]
 OPS_BY_NAME = {o.name: o for o in OPS}
 
 # ---------------------------------------------------------------------------------------------
@@ -2223,7 +2292,8 @@ class Malformed(Family):
                 "C19_rejects_ttensor_components", "C19_rejects_ktensor_typed", "C19_rejects_subdims",
                 "C19_rejects_sp_assign", "C19_receiver_unchanged_sp_assign", "C19_rejects_ttv_multiplicand",
                 "C19_rejects_khatrirao_order", "C19_rejects_sptensor_given", "C19_rejects_sptenmat_given",
-                "C19_rejects_nonvector", "C19_rejects_shape_array")
+                "C19_rejects_nonvector", "C19_rejects_shape_array", "C19_rejects_tenfun_arity",
+                "C19_rejects_set_subs_width", "C19_receiver_unchanged_set_subs_width")
 
     def gen(self, rng, tier):
         out = []
@@ -2342,13 +2412,19 @@ SUPPORTED.update({
     ("sumtensor", "__init__:only"): _HOLDERS4, ("sumtensor", "__init__:second"): _HOLDERS4,
     ("cp_als", "data"): _HOLDERS4 | {"sumtensor"}, ("cp_apr", "data"): {"tensor", "sptensor"},
     ("tucker_als", "data"): {"tensor", "sptensor"}, ("hosvd", "data"): {"tensor"}, ("gcp_opt", "data"): {"tensor", "sptensor"},
+    # the object handed to export_data (documented: tensor, sptensor, ktensor, matrix)
+    ("export_data", "data"): {"tensor", "sptensor", "ktensor", "ndarray", "carray"},
 })
 #: selectors / scalars of another type, for the operations that take a selector
-EXTRA_KINDS = {("ktensor", "extract"): ("float", "set")}
+#: iterables that are not lists (the documented operand of `sumtensor +` is a tensor or a LIST of tensors): a generator
+#: / tuple of fitting tensors, empty containers (nothing in them is of a wrong type)
+_ITERABLES = ("generator", "emptygen", "emptytuple", "emptydict", "emptyset", "emptystr")
+EXTRA_KINDS = {("ktensor", "extract"): ("float", "set"), ("sumtensor", "__add__"): _ITERABLES,
+               ("sumtensor", "__radd__"): _ITERABLES, ("export_data", "data"): ("float", "set", "int", "emptytuple")}
 
 
 def mk_receiver(r, cls, s, nnz=None):
-    if cls in ("cp_als", "cp_apr", "tucker_als", "hosvd", "gcp_opt"):
+    if cls in ("cp_als", "cp_apr", "tucker_als", "hosvd", "gcp_opt", "export_data"):
         return None
     if cls == "tenmat":
         return mk_dense(r, s).to_tenmat(np.array([0]))
@@ -2363,11 +2439,18 @@ def mk_operand(r, kind, s, recv):
     shape = tuple(recv.shape) if hasattr(recv, "shape") and not isinstance(recv, ttb.sumtensor) else tuple(s)
     return {"str": lambda: "a", "none": lambda: None, "list": lambda: [1.0, 2.0], "dict": lambda: {"a": 1},
             "carray": lambda: np.ones(shape) * (1 + 2j), "ndarray": lambda: np.ones(shape) * 2.0,
-            "float": lambda: 1.5, "set": lambda: {0}}[kind]()
+            "float": lambda: 1.5, "set": lambda: {0}, "int": lambda: 3,
+            "generator": lambda: (t for t in [mk_dense(r, s)]), "emptygen": lambda: (t for t in []),
+            "emptytuple": lambda: (), "emptydict": lambda: {}, "emptyset": lambda: set(), "emptystr": lambda: ""}[kind]()
 
 
 def unsupported_thunk(recv, cls, method, o, s):
     N = len(s)
+    if cls == "export_data":
+        def export():
+            with tempfile.TemporaryDirectory() as d:
+                return ttb.export_data(o, os.path.join(d, "x.tns"))
+        return export
     if method == "data":
         from pyttb.gcp.handles import Objectives
         from pyttb.gcp.optimizers import LBFGSB
@@ -2458,5 +2541,100 @@ class Unsupported(Family):
         return out
 
 
+# ---------------------------------------------------------------------------------------------
+# reads of a sparse tensor by a key with an out-of-range entry in an index list (reference: NumPy)
+# ---------------------------------------------------------------------------------------------
+class SparseRead(Family):
+    """`S[key]` where one mode of the key is a LIST with an entry outside the mode (first, middle or last entry; =
+    extent, > extent, < -extent) and the other modes are slices / in-range lists / integers.  The reference is the
+    same key applied to the dense array (`A[np.ix_(...)]` raises IndexError).  pyttb looks at an index list only
+    while renumbering the nonzeros it found, so the demand is made where the region named by the in-range entries
+    holds a stored nonzero (the receivers are mostly full); an answered request on an all-zero region is tagged
+    `answered-oob-read:no-nonzero-in-region` (reads by key are property C04's)."""
+    name = "sparse_read"
+    theorems = ()
+
+    def gen(self, rng, tier):
+        out = []
+        shapes = [x for x in SHAPES if gen.numel(x) > 1] + [[2, 2], [3, 2]]
+        if tier == "quick":
+            shapes = rng.sample(shapes, 5) + [[2, 2]]
+        for s in shapes:
+            N = len(s)
+            for k in range(N):
+                for nnz in ("full", "half", 0):
+                    for rest in ("slice", "list", "int"):
+                        inr = [rng.randrange(s[k]) for _ in range(3)]
+                        out.append({"shape": s, "nnz": nnz, "mode": k, "list": inr, "rest": rest, "bad": None})
+                        for pos in (0, 1, 2):
+                            for oob in (s[k], s[k] + 3, -s[k] - 1):
+                                lst = list(inr)
+                                lst[pos] = oob
+                                out.append({"shape": s, "nnz": nnz, "mode": k, "list": lst, "rest": rest,
+                                            "bad": "index list entry out of range"})
+                        out.append({"shape": s, "nnz": nnz, "mode": k, "list": [s[k], inr[0]], "rest": rest,
+                                    "bad": "index list entry out of range"})
+        return out
+
+    @staticmethod
+    def build(c):
+        r = _rng(c)
+        s = c["shape"]
+        S = mk_sparse(r, s, {"full": gen.numel(s), "half": None, 0: 0}[c["nnz"]])
+        key, sets = [], []
+        for m, e in enumerate(s):
+            if m == c["mode"]:
+                key.append(list(c["list"]))
+                sets.append({x for x in c["list"] if 0 <= x < e})
+            elif c["rest"] == "slice":
+                key.append(slice(None))
+                sets.append(set(range(e)))
+            elif c["rest"] == "list":
+                l = sorted(r.sample(range(e), max(1, e - 1)))
+                key.append(l)
+                sets.append(set(l))
+            else:
+                i = r.randrange(e)
+                key.append(i)
+                sets.append({i})
+        return S, tuple(key), sets
+
+    def evaluate(self, cases):
+        out = []
+        for c in cases:
+            S, key, sets = self.build(c)
+            before = snap(S)
+            A = S.to_tensor().data
+            try:
+                A[np.ix_(*[np.arange(e)[k] if isinstance(k, slice) else np.atleast_1d(k) for k, e in zip(key, c["shape"])])]
+                ref_raises = False
+            except IndexError:
+                ref_raises = True
+            res = call(lambda: S[key[0] if len(key) == 1 else key])
+            raised = "reject" in res
+            hit = any(all(int(x) in st for x, st in zip(row, sets)) for row in np.asarray(S.subs).reshape(-1, len(c["shape"]))) if S.subs.size else False
+            tags = ["sparse_read", f"rest:{c['rest']}", f"nnz:{c['nnz']}", "raise" if raised else "answer",
+                    "ill-formed" if ref_raises else "well-formed", "region:nonzero" if hit else "region:all-zero"]
+            impl = {"raised": raised, "exc": res.get("exc", "")}
+            spec = {"pre": not ref_raises}
+            if (c["bad"] is None) == ref_raises:
+                v = Verdict("corr", f"generator labels the key {c['bad']}, NumPy says raises={ref_raises}", impl, spec, spec, tags)
+            elif snap(S) != before:
+                v = Verdict("violation", "sparse-read|a read changed its receiver", impl, spec, spec, tags)
+            elif ref_raises and not raised and hit:
+                v = Verdict("violation", f"sparse-read|index list {c['list']} of mode {c['mode']} (extent {c['shape'][c['mode']]}) "
+                            "has an out-of-range entry, NumPy raises IndexError, the sparse tensor answered", impl, spec, spec, tags)
+            elif ref_raises and not raised:
+                tags.append("answered-oob-read:no-nonzero-in-region")
+                v = Verdict("ok", "", impl, spec, spec, tags, nontrivial=False)
+            elif not ref_raises and raised:
+                tags.append("over-rejected:sparse_read")
+                v = Verdict("ok", "", impl, spec, spec, tags, nontrivial=False)
+            else:
+                v = Verdict("ok", "", impl, spec, spec, tags, nontrivial=True)
+            out.append(v)
+        return out
+
+
 def families():
-    return [Malformed(), Unsupported()]
+    return [Malformed(), Unsupported(), SparseRead()]
